@@ -41,6 +41,21 @@ func c05GenThreadingSeq(r *verifh.Rng) []verifh.Section {
 		}
 		secs = append(secs, verifh.Section{Cfg: fmt.Sprintf("kind=runner mode=seq n=%d", n), Ops: append(ops, "wait", "probe")})
 	}
+	// several TaskRunners alive at once, each checked against its own concurrency
+	for i := 0; i < verifh.Scale(8, 100); i++ {
+		k := r.Range(2, 3)
+		var ns []int
+		var lists [][]string
+		for j := 0; j < k; j++ {
+			n := c5.PickN(r)
+			if j > 0 && r.Chance(1, 2) {
+				n = ns[0]
+			}
+			ns = append(ns, n)
+			lists = append(lists, c5.SeqOps(r, n, r.Range(6, 20), true, c5.FinishOp(r)))
+		}
+		secs = append(secs, verifh.Section{Cfg: fmt.Sprintf("kind=runner mode=seq ns=%s", c5.MultiNs(ns)), Ops: c5.MultiOps(r, lists)})
+	}
 	return secs
 }
 
@@ -357,7 +372,11 @@ func c05StartWorkerGroup(cfg verifh.Cfg) (func(op []string) string, func()) {
 
 func c05RunThreading(t *testing.T, secs []verifh.Section) {
 	logx.Disable()
-	verifh.Run(t, secs, func(cfg verifh.Cfg) (func(op []string) string, func()) {
+	var start func(cfg verifh.Cfg) (func(op []string) string, func())
+	start = func(cfg verifh.Cfg) (func(op []string) string, func()) {
+		if cfg.Str("ns", "") != "" {
+			return c5.Multi(cfg, start)
+		}
 		if cfg.Str("kind", "") == "runner" {
 			return c05StartRunner(cfg)
 		}
@@ -365,5 +384,6 @@ func c05RunThreading(t *testing.T, secs []verifh.Section) {
 			return c05StartWorkerGroup(cfg)
 		}
 		return func([]string) string { return "bad-kind" }, nil
-	})
+	}
+	verifh.Run(t, secs, start)
 }
